@@ -280,7 +280,9 @@ def run(ctx):
     tf = true_facts(asum)
     ok_a = bool(tf)
     for fs in tf:
-        ok_a = ok_a and any(f[0] == "cmp" and f[1] == "is not" and f[3] == ("const", None) and strip(f[2]) == ("attr", ("param", alv.params[0]), "_protocol") for f in fs) \
+        # (`is not None`, or plain truthiness: a protocol object defines neither __bool__ nor __len__)
+        ok_a = ok_a and any((f[0] == "cmp" and f[1] == "is not" and f[3] == ("const", None) and strip(f[2]) == ("attr", ("param", alv.params[0]), "_protocol")) or
+                            strip(f) == ("attr", ("param", alv.params[0]), "_protocol") for f in fs) \
             and any(strip(f) == ("attr", ("attr", ("param", alv.params[0]), "_protocol"), "alive") for f in fs)
     ctx.ob("C08.d", alv.qual, ok_a, "_alive is true only with an existing, alive protocol", func=alv.qual, file=file, construct="_alive",
            fail="_alive can be true without a protocol / with a dead one: send() would not reconnect")
